@@ -402,6 +402,14 @@ def gen_concat(rng, malformed):
     for p in parts:
         if not p['keep'] and rng.random() < 0.3:
             p['raw'] = True        # a raw array instead of a LazyIndexer (wrapped by ConcatenatedLazyIndexer itself)
+    if dts[0] < 100 and len(set(dts)) == 1 and rng.random() < 0.12:
+        # parts that carry their OWN elementwise (dtype-changing) chain, the same for all, as the vis / weights / flags
+        # indexers of concatenated data sets do: outside the model, judged against numpy only
+        pts = [('map', rng.choice([1, 2, -1]), rng.choice([0, 1]), rng.choice([None, 0, 1, 2, 4, 5]))
+               for _ in range(rng.randint(1, 2))]
+        for p in parts:
+            p['ts'] = list(pts)
+            p['raw'] = False
     case = dict(kind='concat', parts=parts, ts=gen_ts(rng, maps=dts[0] < 100 or rng.random() < 0.1), dt=dts[0],
                 index=index)
     if rng.random() < 0.25:
@@ -499,7 +507,8 @@ def run_impl(case, pool, log=None):
         else:
             bases = part_bases(case['parts'])
             subs = [labels(p['shape'], b, part_dt(case, p)) if p.get('raw') and not p['keep'] else
-                    LazyIndexer(labels(p['shape'], b, part_dt(case, p)), keep=tuple(py_ix(ix, True) for ix in p['keep']))
+                    LazyIndexer(labels(p['shape'], b, part_dt(case, p)), keep=tuple(py_ix(ix, True) for ix in p['keep']),
+                                transforms=[py_tr(tuple(t)) for t in p.get('ts', [])])
                     for p, b in zip(case['parts'], bases)]
             li = ConcatenatedLazyIndexer(subs, transforms=ts)
         res['shape'] = list(li.shape)
@@ -536,7 +545,8 @@ def run_numpy(case):
             a1 = np_oindex(labels(case['shape'], 0, case['dt']), case['keep'], keepdims=True)
         else:
             bases = part_bases(case['parts'])
-            fulls = [np_oindex(labels(p['shape'], b, part_dt(case, p)), p['keep'], keepdims=True)
+            fulls = [np_transforms([tuple(t) for t in p.get('ts', [])],
+                                   np_oindex(labels(p['shape'], b, part_dt(case, p)), p['keep'], keepdims=True), None)
                      for p, b in zip(case['parts'], bases)]
             ne = [f for f in fulls if f.shape[0]] or fulls[:1]
             a1 = np.concatenate(ne)
@@ -723,8 +733,16 @@ def nowidth(x):
     return x[:1] + [100] + x[2:] if len(x) > 1 and x[0] == 'ok' and x[1] > 100 else x
 
 
+def part_chains(case):
+    return case['kind'] == 'concat' and any(p.get('ts') for p in case['parts'])
+
+
 def judge(ctx, case, impl, mo):
-    """mo = model output [model, spec, shape-prop, dtype-prop] (or None while searching without a model)"""
+    """mo = model output [model, spec, shape-prop, dtype-prop, len, wire_5 output] (or None while searching without a
+    model, and for parts with their own transform chains, which the model does not have)"""
+    if part_chains(case):
+        mo = None
+        ctx.count('concat_parts_with_own_chain')
     npo = run_numpy(case)
     sb = scalar_bytes(case)
     if sb:
@@ -1024,7 +1042,7 @@ def norm_case(c):
     else:
         c.setdefault('dt', 0)
         c['parts'] = [dict(shape=p['shape'], keep=[ix(i) for i in p.get('keep', [])], dt=p.get('dt', c['dt']),
-                           raw=bool(p.get('raw'))) for p in c['parts']]
+                           raw=bool(p.get('raw')), ts=[tuple(t) for t in p.get('ts', [])]) for p in c['parts']]
     c.setdefault('dt', 0)
     if any(t[0] in KEEP_AWARE for t in c['ts']) and 'init' not in c:
         c = finish_case(c)
